@@ -278,9 +278,13 @@ func (p *OneofFields) lazyInit() *OneofFields {
 			for _, f := range p.List {
 				// Field names and numbers are guaranteed to be unique.
 				p.byName[f.Name()] = f
-				p.byJSON[f.JSONName()] = f
 				p.byText[f.TextName()] = f
 				p.byNum[f.Number()] = f
+				// JSON names are not: the first field with a given
+				// JSON name wins, as in Fields.
+				if _, ok := p.byJSON[f.JSONName()]; !ok {
+					p.byJSON[f.JSONName()] = f
+				}
 			}
 		}
 	})
